@@ -11,6 +11,7 @@ import (
 	"path/filepath"
 	"sort"
 	"strings"
+	"sync"
 	"time"
 
 	"verifsim/engine"
@@ -44,6 +45,104 @@ type violation struct {
 	Tried    int
 }
 
+// procResult is how a child process ended.
+type procResult struct {
+	exit   int
+	output string
+	kind   string // "" (exited by itself) | "mem" (RSS watchdog) | "hang" (no progress) | "timeout"
+	status engine.StatusSnapshot
+}
+
+const (
+	rssLimitBytes = 6 << 30
+	hangSeconds   = 90
+)
+
+func rssBytes(pid int) int64 {
+	b, err := os.ReadFile(fmt.Sprintf("/proc/%d/statm", pid))
+	if err != nil {
+		return 0
+	}
+	var size, resident int64
+	fmt.Sscan(string(b), &size, &resident)
+	return resident * int64(os.Getpagesize())
+}
+
+// runProc runs cmd to completion under three watchdogs: resident memory (the
+// sandbox has no memory limit), lack of progress on the status page while a
+// library call is in flight (a hang), and an overall timeout. The watchdogs
+// only ever KILL; what a kill means is decided by the caller from the status
+// page (a kill outside an in-flight library call is a harness matter).
+func runProc(cmd *exec.Cmd, statusPath string, overall time.Duration) procResult {
+	var buf bytes.Buffer
+	cmd.Stdout, cmd.Stderr = &buf, &buf
+	if err := cmd.Start(); err != nil {
+		return procResult{exit: -1, output: err.Error(), kind: "start"}
+	}
+	done := make(chan error, 1)
+	go func() { done <- cmd.Wait() }()
+	tick := time.NewTicker(250 * time.Millisecond)
+	defer tick.Stop()
+	start := time.Now()
+	var last engine.StatusSnapshot
+	lastChange := time.Now()
+	kind := ""
+	var werr error
+loop:
+	for {
+		select {
+		case werr = <-done:
+			break loop
+		case <-tick.C:
+			if kind != "" {
+				continue
+			}
+			if rssBytes(cmd.Process.Pid) > rssLimitBytes {
+				kind = "mem"
+				_ = cmd.Process.Kill()
+				continue
+			}
+			if statusPath != "" {
+				if st, err := engine.ReadStatus(statusPath); err == nil {
+					if st != last {
+						last, lastChange = st, time.Now()
+					} else if st.InCall == 1 && time.Since(lastChange) > hangSeconds*time.Second {
+						kind = "hang"
+						_ = cmd.Process.Kill()
+						continue
+					}
+				}
+			}
+			if time.Since(start) > overall {
+				kind = "timeout"
+				_ = cmd.Process.Kill()
+			}
+		}
+	}
+	res := procResult{kind: kind, output: buf.String()}
+	if statusPath != "" {
+		res.status, _ = engine.ReadStatus(statusPath)
+	}
+	if werr != nil {
+		if ee, ok := werr.(*exec.ExitError); ok {
+			res.exit = ee.ExitCode()
+		} else {
+			res.exit = -1
+		}
+	}
+	return res
+}
+
+// deathKind classifies an abnormal end: "fatal" = the Go runtime aborted the
+// process by itself (fatal error, race-detector halt), "mem"/"hang" = killed by
+// a watchdog during a call.
+func deathKind(r procResult) string {
+	if r.kind != "" {
+		return r.kind
+	}
+	return "fatal"
+}
+
 func fatal2(format string, a ...interface{}) int {
 	fmt.Fprintf(os.Stderr, "HARNESS-ERROR: "+format+"\n", a...)
 	fmt.Printf("HARNESS-ERROR: "+format+"\n", a...)
@@ -59,12 +158,11 @@ func childEnv(info *scen.Info, scratch string, extra ...string) []string {
 }
 
 // execChild executes one plan in a fresh child process.
-func execChild(l leg, scratch string, plan []byte, timeout time.Duration) (out engine.Outcome, died bool, exitCode int, stderr string, st engine.StatusSnapshot) {
+func execChild(l leg, scratch string, plan []byte, timeout time.Duration) (out engine.Outcome, died bool, kind string, exitCode int, stderr string, st engine.StatusSnapshot) {
 	pf := filepath.Join(scratch, "exec-plan.json")
 	sf := filepath.Join(scratch, "exec-status")
 	_ = os.WriteFile(pf, plan, 0o644)
 	_ = os.Remove(sf)
-	// remove stale race logs
 	if m, _ := filepath.Glob(filepath.Join(scratch, "race.*")); len(m) > 0 {
 		for _, f := range m {
 			_ = os.Remove(f)
@@ -72,55 +170,58 @@ func execChild(l leg, scratch string, plan []byte, timeout time.Duration) (out e
 	}
 	cmd := exec.Command(l.binary, "exec", "-scenario", l.scenario, "-plan", pf, "-status", sf)
 	cmd.Env = childEnv(l.info, scratch)
-	var so, se bytes.Buffer
-	cmd.Stdout, cmd.Stderr = &so, &se
-	if err := cmd.Start(); err != nil {
-		return engine.Outcome{Harness: &engine.HarnessError{Msg: err.Error()}}, false, -1, "", st
-	}
-	done := make(chan error, 1)
-	go func() { done <- cmd.Wait() }()
-	var werr error
-	select {
-	case werr = <-done:
-	case <-time.After(timeout):
-		_ = cmd.Process.Kill()
-		<-done
-		st, _ = engine.ReadStatus(sf)
-		return engine.Outcome{Harness: &engine.HarnessError{Msg: "exec child timed out"}}, false, -2, se.String(), st
-	}
-	st, _ = engine.ReadStatus(sf)
-	stderr = se.String()
+	r := runProc(cmd, sf, timeout)
+	st = r.status
+	stderr = r.output
 	if m, _ := filepath.Glob(filepath.Join(scratch, "race.*")); len(m) > 0 {
 		for _, f := range m {
 			b, _ := os.ReadFile(f)
 			stderr += string(b)
 		}
 	}
-	exitCode = 0
-	if werr != nil {
-		if ee, ok := werr.(*exec.ExitError); ok {
-			exitCode = ee.ExitCode()
-		} else {
-			exitCode = -1
-		}
+	exitCode = r.exit
+	if r.kind == "start" || r.kind == "timeout" {
+		return engine.Outcome{Harness: &engine.HarnessError{Msg: "exec child: " + r.kind}}, false, r.kind, exitCode, stderr, st
 	}
-	for _, line := range strings.Split(so.String(), "\n") {
-		if strings.HasPrefix(line, "EXEC-OUTCOME ") {
-			var eo struct {
-				Fail        *engine.Failure `json:"fail"`
-				Fingerprint uint64          `json:"fingerprint"`
-				Harness     string          `json:"harness"`
-			}
-			if json.Unmarshal([]byte(line[len("EXEC-OUTCOME "):]), &eo) == nil {
-				out.Fail, out.Fingerprint = eo.Fail, eo.Fingerprint
-				if eo.Harness != "" {
-					out.Harness = &engine.HarnessError{Msg: eo.Harness}
+	if r.kind == "" {
+		for _, line := range strings.Split(r.output, "\n") {
+			if strings.HasPrefix(line, "EXEC-OUTCOME ") {
+				var eo struct {
+					Fail        *engine.Failure `json:"fail"`
+					Fingerprint uint64          `json:"fingerprint"`
+					Harness     string          `json:"harness"`
 				}
-				return out, false, exitCode, stderr, st
+				if json.Unmarshal([]byte(line[len("EXEC-OUTCOME "):]), &eo) == nil {
+					out.Fail, out.Fingerprint = eo.Fail, eo.Fingerprint
+					if eo.Harness != "" {
+						out.Harness = &engine.HarnessError{Msg: eo.Harness}
+					}
+					return out, false, "", exitCode, stderr, st
+				}
 			}
 		}
 	}
-	return out, true, exitCode, stderr, st
+	return out, true, deathKind(r), exitCode, stderr, st
+}
+
+// deathFailure turns a process death during an in-flight call into a Failure,
+// or nil if it is not attributable to the code under test.
+func deathFailure(info *scen.Info, kind string, exitCode int, stderr string, st engine.StatusSnapshot) *engine.Failure {
+	if info.DeathInvariant == nil || st.InCall != 1 {
+		return nil
+	}
+	inv := info.DeathInvariant(kind, exitCode, stderr)
+	if inv == "" {
+		return nil
+	}
+	what := "process died during an in-flight library call: "
+	switch kind {
+	case "mem":
+		what = fmt.Sprintf("the in-flight library call grew the process beyond %d GiB resident and was killed: ", rssLimitBytes>>30)
+	case "hang":
+		what = fmt.Sprintf("the in-flight library call did not return within %d s and was killed: ", hangSeconds)
+	}
+	return &engine.Failure{Invariant: inv, Step: int(st.Step), Detail: what + st.Note + " " + firstLines(stderr, 3)}
 }
 
 func runLeg(l leg, tier string, batch uint64, workers int, scratch string) (*legResult, int) {
@@ -164,57 +265,30 @@ func runLeg(l leg, tier string, batch uint64, workers int, scratch string) (*leg
 	} else if v := os.Getenv("VERIF_QUICK_RUNS"); v != "" {
 		fmt.Sscan(v, &runs)
 	}
-	type proc struct {
-		cmd *exec.Cmd
-		se  *bytes.Buffer
-		err error
-	}
-	procs := make([]*proc, workers)
+	results := make([]procResult, workers)
+	var wgp sync.WaitGroup
+	overall := time.Duration(seconds+900) * time.Second
 	for i := 0; i < workers; i++ {
 		cmd := exec.Command(l.binary, "worker", "-scenario", l.scenario, "-tier", tier, "-seed", fmt.Sprint(batch),
 			"-worker", fmt.Sprint(i), "-of", fmt.Sprint(workers), "-runs", fmt.Sprint(runs), "-seconds", fmt.Sprint(seconds), "-dir", dir)
 		cmd.Env = childEnv(info, dir, "GOMAXPROCS=2")
-		se := &bytes.Buffer{}
-		cmd.Stderr = se
-		cmd.Stdout = se
-		if err := cmd.Start(); err != nil {
-			return nil, fatal2("start worker: %v", err)
-		}
-		procs[i] = &proc{cmd: cmd, se: se}
+		wgp.Add(1)
+		go func(i int, cmd *exec.Cmd) {
+			defer wgp.Done()
+			results[i] = runProc(cmd, filepath.Join(dir, fmt.Sprintf("status-%d", i)), overall)
+		}(i, cmd)
 	}
-	watchdog := time.Duration(seconds+900) * time.Second
-	doneAll := make(chan struct{})
-	go func() {
-		for _, p := range procs {
-			p.err = p.cmd.Wait()
-		}
-		close(doneAll)
-	}()
-	timedOut := false
-	select {
-	case <-doneAll:
-	case <-time.After(watchdog):
-		timedOut = true
-		for _, p := range procs {
-			_ = p.cmd.Process.Kill()
-		}
-		<-doneAll
-	}
-	if timedOut {
-		return nil, fatal2("watchdog: scenario %s workers exceeded %v", l.scenario, watchdog)
-	}
+	wgp.Wait()
 
-	for i, p := range procs {
-		stt, _ := engine.ReadStatus(filepath.Join(dir, fmt.Sprintf("status-%d", i)))
-		exitCode := 0
-		if p.err != nil {
-			if ee, ok := p.err.(*exec.ExitError); ok {
-				exitCode = ee.ExitCode()
-			} else {
-				exitCode = -1
-			}
+	for i, pr := range results {
+		stt := pr.status
+		if pr.kind == "start" {
+			return nil, fatal2("start worker: %s", pr.output)
 		}
-		if exitCode == 0 && stt.Done == 1 {
+		if pr.kind == "timeout" {
+			return nil, fatal2("watchdog: worker %d of %s exceeded %v (run %d step %d incall=%d)", i, l.scenario, overall, stt.Idx, stt.Step, stt.InCall)
+		}
+		if pr.kind == "" && pr.exit == 0 && stt.Done == 1 {
 			b, err := os.ReadFile(filepath.Join(dir, fmt.Sprintf("result-%d.json", i)))
 			if err != nil {
 				return nil, fatal2("worker %d result: %v", i, err)
@@ -233,11 +307,12 @@ func runLeg(l leg, tier string, batch uint64, workers int, scratch string) (*leg
 			}
 			continue
 		}
-		if exitCode == 3 {
-			return nil, fatal2("worker %d of %s reported a harness error:\n%s", i, l.scenario, tail(p.se.String(), 3000))
+		if pr.kind == "" && pr.exit == 3 {
+			return nil, fatal2("worker %d of %s reported a harness error:\n%s", i, l.scenario, tail(pr.output, 3000))
 		}
-		// The worker PROCESS died. Attribute it through the status page.
-		stderr := p.se.String()
+		// The worker PROCESS died (by itself or under a watchdog). Attribute it
+		// through the status page.
+		stderr := pr.output
 		if m, _ := filepath.Glob(filepath.Join(dir, "race.*")); len(m) > 0 {
 			for _, f := range m {
 				b, _ := os.ReadFile(f)
@@ -245,35 +320,60 @@ func runLeg(l leg, tier string, batch uint64, workers int, scratch string) (*leg
 				_ = os.Remove(f)
 			}
 		}
-		if info.DeathInvariant == nil {
-			return nil, fatal2("worker %d of %s died (exit %d) and the scenario defines no death invariant:\n%s", i, l.scenario, exitCode, tail(stderr, 3000))
+		kind := deathKind(pr)
+		if stt.Minimising == 1 {
+			// The worker had already found an ordinary violation and died while
+			// trying shrink candidates in-process. Redo the minimisation with
+			// child-process executions.
+			plan := info.Sc.Generate(stt.Seed, tier)
+			pj, _ := json.Marshal(plan)
+			o, died, _, _, _, _ := execChild(l, dir, pj, 600*time.Second)
+			if died || o.Fail == nil {
+				return nil, fatal2("worker %d of %s died while minimising run %d, and the original violation did not reproduce in a fresh process", i, l.scenario, stt.Idx)
+			}
+			execFn := func(pl engine.Plan) engine.Outcome {
+				b, _ := json.Marshal(pl)
+				o, d, _, _, _, _ := execChild(l, dir, b, 600*time.Second)
+				if d {
+					return engine.Outcome{}
+				}
+				return o
+			}
+			minPlan, minFail, tried := engine.Minimise(info.Sc, plan, o.Fail, execFn, 40*time.Second)
+			mp, _ := json.Marshal(minPlan)
+			lr.violations = append(lr.violations, violation{Scenario: l.scenario, Build: info.Build, Binary: l.binary, Seed: stt.Seed, Fail: minFail, Plan: mp, Min: true, Tried: tried})
+			continue
 		}
-		if stt.InCall != 1 {
-			return nil, fatal2("worker %d of %s died (exit %d) outside a logged library call (run %d step %d):\n%s", i, l.scenario, exitCode, stt.Idx, stt.Step, tail(stderr, 3000))
-		}
-		inv := info.DeathInvariant(exitCode, stderr)
-		if inv == "" {
-			return nil, fatal2("worker %d of %s died (exit %d) for a reason not attributable to the code under test:\n%s", i, l.scenario, exitCode, tail(stderr, 4000))
+		want := deathFailure(info, kind, pr.exit, stderr, stt)
+		if want == nil {
+			return nil, fatal2("worker %d of %s died (%s, exit %d) at run %d step %d incall=%d and the death is not attributable to the code under test:\n%s", i, l.scenario, kind, pr.exit, stt.Idx, stt.Step, stt.InCall, tail(stderr, 4000))
 		}
 		plan := info.Sc.Generate(stt.Seed, tier)
 		pj, _ := json.Marshal(plan)
 		// confirm in a fresh child
-		_, died, ec2, se2, st2 := execChild(l, dir, pj, 120*time.Second)
-		if !died || st2.InCall != 1 || info.DeathInvariant(ec2, se2) != inv {
-			return nil, fatal2("worker %d of %s died at run %d step %d (%s) but the death did not reproduce in a fresh process (died=%v exit=%d)\n%s", i, l.scenario, stt.Idx, stt.Step, inv, died, ec2, tail(stderr, 3000))
+		_, died, k2, ec2, se2, st2 := execChild(l, dir, pj, 600*time.Second)
+		var got *engine.Failure
+		if died {
+			got = deathFailure(info, k2, ec2, se2, st2)
 		}
-		want := &engine.Failure{Invariant: inv, Step: int(st2.Step), Detail: "process died during an in-flight library call: " + firstLines(se2, 3)}
+		if got == nil || got.Invariant != want.Invariant {
+			return nil, fatal2("worker %d of %s died at run %d step %d (%s) but the death did not reproduce in a fresh process (died=%v kind=%s exit=%d)\n%s", i, l.scenario, stt.Idx, stt.Step, want.Invariant, died, k2, ec2, tail(stderr, 3000))
+		}
 		execFn := func(pl engine.Plan) engine.Outcome {
 			b, _ := json.Marshal(pl)
-			o, d, ec, se, s := execChild(l, dir, b, 120*time.Second)
-			if d && s.InCall == 1 {
-				if iv := info.DeathInvariant(ec, se); iv != "" {
-					return engine.Outcome{Fail: &engine.Failure{Invariant: iv, Step: int(s.Step), Detail: "process died during an in-flight library call: " + firstLines(se, 3)}}
+			o, d, k, ec, se, s := execChild(l, dir, b, 600*time.Second)
+			if d {
+				if f := deathFailure(info, k, ec, se, s); f != nil {
+					return engine.Outcome{Fail: f}
 				}
 			}
 			return o
 		}
-		minPlan, minFail, tried := engine.Minimise(info.Sc, plan, want, execFn, 40*time.Second)
+		box := 40 * time.Second
+		if kind == "hang" {
+			box = 0 // every candidate would cost a full hang timeout
+		}
+		minPlan, minFail, tried := engine.Minimise(info.Sc, plan, got, execFn, box)
 		mp, _ := json.Marshal(minPlan)
 		lr.violations = append(lr.violations, violation{Scenario: l.scenario, Build: info.Build, Binary: l.binary, Seed: stt.Seed, Fail: minFail, Plan: mp, Death: true, Min: true, Tried: tried})
 	}
@@ -390,10 +490,11 @@ func cmdSupervise(args []string) int {
 		sort.SliceStable(lr.violations, func(i, j int) bool { return lr.violations[i].Seed < lr.violations[j].Seed })
 		for _, v := range lr.violations {
 			// confirm in a fresh process: must fail the same way
-			o, died, ec, se, st := execChild(lr.leg, filepath.Join(*scratch, lr.leg.scenario), v.Plan, 120*time.Second)
+			o, died, dk, ec, se, st := execChild(lr.leg, filepath.Join(*scratch, lr.leg.scenario), v.Plan, 600*time.Second)
 			reproduced := false
 			if v.Death {
-				reproduced = died && st.InCall == 1 && lr.leg.info.DeathInvariant(ec, se) == v.Fail.Invariant
+				df := deathFailure(lr.leg.info, dk, ec, se, st)
+				reproduced = died && df != nil && df.Invariant == v.Fail.Invariant
 			} else {
 				reproduced = o.Fail != nil && o.Fail.Invariant == v.Fail.Invariant && o.Fail.Step == v.Fail.Step
 			}
